@@ -31,8 +31,15 @@ MAXROW, MAXCOL = 1048576, 16384
 # ---------------------------------------------------------------------------------------------
 OPT_DEFAULT = {"spans": False, "dim": False, "tn": True, "ent": "named", "spall": False, "rowr": True,
                "applynf": "1", "dense": False, "indent": False, "nosp": False}
+YEN42 = '_ "Y"* #,##0_ ;_ "Y"* \\-#,##0_ ;_ "Y"* "-"_ ;_ @_ '
 XFS = [{"id": 0, "custom": False, "code": ""}, {"id": 14, "custom": False, "code": ""},
-       {"id": 164, "custom": True, "code": '0.0" <u>"'}, {"id": 2, "custom": False, "code": ""}]
+       {"id": 164, "custom": True, "code": '0.0" <u>"'}, {"id": 2, "custom": False, "code": ""},
+       # formats the file DECLARES under ids below 164 (localised Excel / WPS): the declared code is the cell's code
+       {"id": 42, "custom": True, "code": YEN42}, {"id": 44, "custom": True, "code": '"Y"#,##0.00'},
+       {"id": 15, "custom": True, "code": "yyyy/mm/dd"}, {"id": 23, "custom": True, "code": "0.0"},
+       # undeclared ids outside the ECMA list: nothing is demanded
+       {"id": 60, "custom": False, "code": ""}, {"id": 43, "custom": False, "code": ""},
+       {"id": 165, "custom": True, "code": "0.000"}]
 F0 = {"k": "none", "si": -1, "ht": False, "text": "", "toks": [], "ref": ""}
 
 
@@ -280,7 +287,7 @@ def random_models(rng, count):
                     continue
                 taken.add((r, c))
                 u = rng.random()
-                s = rng.choice([-1, -1, 0, 1, 2, 3])
+                s = rng.choice([-1, -1, 0, 1, 2, 3, 4, 5, 6, 7, 8, 9, 10])
                 if u < 0.25:
                     v = rnum(rng)
                     cells.append(cell(r, c, rng.choice(["", "n"]), v, fbits(v), s=s))
@@ -303,7 +310,7 @@ def random_models(rng, count):
                     txt = c09.render(c09.random_formula(rng, depth=rng.randint(1, 4), allow=()))
                     cells.append(cell(r, c, "", v, fbits(v), s=s, f=dict(F0, k="normal", ht=True, text=txt.strip(" ") or "1")))
                 else:
-                    cells.append(cell(r, c, "", None, s=rng.choice([1, 2, 3])))
+                    cells.append(cell(r, c, "", None, s=rng.choice([1, 2, 3, 4, 5, 7])))
             # a run of consecutive inline strings in its own rows: the first one with protected outer blanks
             if not far and rng.random() < 0.5:
                 rr, cc = 15, rng.randint(1, 5)
@@ -398,7 +405,7 @@ def random_models(rng, count):
 RAW_ABSENT = {"r": 0, "c": 0, "nr": False, "rf": False, "rra": 0, "rpre": [], "hx": False, "t": "", "s": -1, "hv": False, "vx": "", "v": "", "vt": "", "vb": "", "vi": -1,
               "his": False, "cr": False, "f": {"k": "none", "si": -1, "ht": False, "text": "", "toks": []}}
 OBS_ABSENT = {"k": "blank", "runs": [], "runsn": [], "runst": [], "runstn": [], "b": "", "f": "", "hf": False, "fid": 0,
-              "fmt": "General"}
+              "fmt": "General", "h2": False, "fid2": 0, "fmt2": ""}
 XMLWS = " \t\r\n"
 BUILTIN_CODE_TO_ID = None
 
@@ -418,7 +425,7 @@ def obs_of(c):
     # projections of the same runs: line ends normalised (runsn), outer XML white space removed (runst), both (runstn)
     return {"k": k, "runs": runs, "runsn": [norm_eol(x) for x in runs], "runst": [x.strip(XMLWS) for x in runs],
             "runstn": [norm_eol(x).strip(XMLWS) for x in runs], "b": c["b"], "f": c["f"], "hf": c["hf"],
-            "fid": c["fid"], "fmt": c["fmt"]}
+            "fid": c["fid"], "fmt": c["fmt"], "h2": c["h2"], "fid2": c["fid2"], "fmt2": c["fmt2"]}
 
 
 def raw_of(c):
